@@ -1,10 +1,10 @@
 \* three main-graph nodes over a reduced operator catalogue; a checksum-selected sample is emitted
 CONSTANTS
   MaxNodes = 3
-  Ops = {"Identity","Add","Constant","If","Call","Split"}
+  Ops = {"Identity","Add","Constant","If","Call","Call2","Split","TypedConst","LayerNorm","BatchNorm"}
   MaxOuts = 1
   EmitOn = TRUE
-  SampleMod = 400
+  SampleMod = 1200
   SampleRes = 0
 INIT Init
 NEXT Next
